@@ -20,7 +20,7 @@ RULE = (
     "leader and volume-directory truncation at every record boundary +-1 and every 64th byte "
     "(quick) or every byte (thorough). Faults are served by the vtrace filesystem and by really "
     "truncated local files; a part of the faults is applied IN PLACE after a successful open (and "
-    "full load) of the intact product at the same path in the same process; 'indexed' warm faults: that first open also wrote the index cache of the intact images, and the judged open says use_cache=False (with / without create_cache=True), so the index must not stand in for the damaged file. Oracle: open_alos2 raises an Exception (a missing file: an OSError "
+    "full load) of the intact product at the same path in the same process; 'indexed' warm faults: that first open also wrote the index cache of the intact images, and the judged open says use_cache=False (with / without create_cache=True), so the index must not stand in for the damaged file; 'index-of-damaged': an index is first built from the damaged product itself (create_cache=True, or the command line tool - either may fail), then the product is opened with default options. Oracle: open_alos2 raises an Exception (a missing file: an OSError "
     "subclass); if it returns, the complete tree incl. all pixel values must equal the undamaged "
     "reference (so a silently short image is a violation); never a BaseException-only type; each "
     "case runs under a 120 s watchdog. Non-trivial: the cut is strictly inside the file."
@@ -113,6 +113,8 @@ def run_case(case):
                 harness.FIXED_NAME = old_fixed
                 return [harness.disc("exception", "open of the intact product", "a tree", harness.exc_text(err))]
         what += " after a successful open of the intact product at the same path"
+    if case.get("warm") == "index-of-damaged":
+        return _index_of_damaged(case, damaged, roles, ref, what)
     try:
         if case.get("warm") == "indexed":
             what += " which also wrote the index cache (judged open: use_cache=False" + (", create_cache=True)" if case.get("refresh") else ")")
@@ -125,6 +127,42 @@ def run_case(case):
 
             with harness.Materialised(damaged, case["fs"]) as prod:
                 common.drop_user_cache(prod.url, [roles["IMG0"], roles["IMG1"]])
+        harness.FIXED_NAME = old_fixed
+
+
+def _index_of_damaged(case, damaged, roles, ref, what):
+    """somebody tries to build the index cache of the product as it is now - damaged - with
+    create_cache=True or with the command line tool; that attempt may fail, but whatever it
+    leaves behind, the default open that follows must not turn the damage into a shorter image"""
+    from vf.props import c07, common
+
+    out = []
+    old_fixed = harness.FIXED_NAME
+    harness.FIXED_NAME = f"iod-{__import__('os').getpid()}-{harness.case_hash(case)[:10]}"
+    images = [roles["IMG0"], roles["IMG1"]]
+    try:
+        if case.get("builder") != "tool":
+            with harness.Materialised(damaged, "local") as prod:
+                harness.guard(harness.open_tree, prod.url, use_cache=False, create_cache=True, **({"records_per_chunk": case["rpc"]} if case.get("rpc") else {}))
+        what += f" (an index was first built from the damaged product with {'the tool' if case.get('builder') == 'tool' else 'create_cache=True'}; judged open: defaults)"
+        # the adjacent index files written by the tool are part of the product directory now
+        extra = {}
+        opts = {"records_per_chunk": case["rpc"]} if case.get("rpc") else {}
+        case2 = dict(case, fs="local")
+        if case.get("builder") == "tool":
+            # run the tool and the judged open on the same materialisation
+            with harness.Materialised(damaged, "local") as prod:
+                for image in images:
+                    if (prod.dir / image).is_file():
+                        c07.run_cli(["--rpc", str(case.get("rpc") or 1024), str(prod.dir / image)])
+                for image in images:
+                    p = prod.dir / f"{image}.index"
+                    if p.is_file():
+                        extra[f"{image}.index"] = p.read_bytes()
+        return _judge_damaged(case2, dict(damaged, **extra), opts, what, ref, out)
+    finally:
+        with harness.Materialised(damaged, "local") as prod:
+            common.drop_user_cache(prod.url, images)
         harness.FIXED_NAME = old_fixed
 
 
@@ -201,6 +239,8 @@ def enum_cases(tier):
                         yield {"level": level, "fault": "truncate", "file": role, "cut": cut, "rpc": rpc, "fs": "local" if (cut + j) % 2 else "vtrace", "warm": True}
                     if (cut in boundary and rpc == 1024) or (tier != "quick" and cut % 5 == j):
                         yield {"level": level, "fault": "truncate", "file": role, "cut": cut, "rpc": rpc, "fs": "local", "warm": "indexed", "refresh": bool((cut + j) % 2)}
+                    if (cut in boundary and rpc in (1, 1024)) or (tier != "quick" and cut % 7 == j):
+                        yield {"level": level, "fault": "truncate", "file": role, "cut": cut, "rpc": rpc, "fs": "local", "warm": "index-of-damaged", "builder": ["option", "tool"][(cut + j) % 2]}
         for role in ("LED", "VOL"):
             n = len(files[roles[role]])
             if tier == "quick":
@@ -243,7 +283,7 @@ def plan(tier):
 def classify(case):
     labels = [f"fault={case['fault']}", f"file={case['file'][:3]}", f"fs={case['fs']}", f"level={case['level']}"]
     if case.get("warm"):
-        labels.append("after-intact-open" + ("+index" if case["warm"] == "indexed" else ""))
+        labels.append("index-built-from-damaged-product" if case["warm"] == "index-of-damaged" else "after-intact-open" + ("+index" if case["warm"] == "indexed" else ""))
     if case["fault"] == "missing":
         return True, labels
     return case.get("mod") or case["cut"] > 0, labels
